@@ -2,6 +2,9 @@
 //! drives one real solve with hooks on and converts hook events into Trace_IPM events.
 #![allow(non_snake_case)]
 use crate::fenc::*;
+use crate::gen;
+use rand::rngs::StdRng;
+use rand::SeedableRng;
 use crate::observer::{self, Obs};
 use crate::problem::*;
 use clarabel::solver::*;
@@ -337,7 +340,28 @@ pub fn run_ipm(run: usize, p: &Problem, opts: &RunOpts) -> RunOut {
     verif::set_detail(opts.detail);
     let st2 = st.clone();
     let res = catch_unwind(AssertUnwindSafe(|| {
-        let mut solver = DefaultSolver::new(&P, &p.q, &A, &p.b, &cones, st2);
+        // "+prior": the solver object is built on OTHER data of the same pattern (a strictly feasible planted problem, magnitudes
+        // 1e9 / 1 / 1e-9 times those of a unit point), solved once, and only then given the recorded problem's q and b through
+        // the update API: everything cached by the first solve (norms, verdict, objective, iterate) must be gone
+        let prior = p.tag.contains("+prior") && p.b.iter().all(|v| v.abs() < bound) && p.q.iter().all(|v| v.is_finite());
+        let mut solver = if prior {
+            let mut r2 = StdRng::seed_from_u64(run as u64 ^ 0x9e37);
+            let f = [1e9, 1.0, 1e-9][run % 3];
+            let mut b0 = vec![]; let mut z0 = vec![];
+            for c in &p.cones { b0.extend(gen::interior(c, &mut r2, false)); z0.extend(gen::interior(c, &mut r2, true)); }
+            let (atz, _) = observer::mul_t(&p.A, &z0);
+            let q0: Vec<f64> = atz.iter().map(|v| -f * v).collect();
+            let b0: Vec<f64> = b0.iter().map(|v| f * v).collect();
+            let mut sv = DefaultSolver::new(&P, &q0, &A, &b0, &cones, st2);
+            if sv.is_data_update_allowed() {
+                sv.solve();
+                sv.update_q(&p.q).expect("update_q after a prior solve");
+                sv.update_b(&p.b).expect("update_b after a prior solve");
+                sv
+            } else { DefaultSolver::new(&P, &p.q, &A, &p.b, &cones, st.clone()) }
+        } else { DefaultSolver::new(&P, &p.q, &A, &p.b, &cones, st2) };
+        // "+flip": a setup-time switch is flipped on the live object; it was consumed by the constructor and must be inert now
+        if p.tag.contains("+flip") { solver.settings.equilibrate_enable = !solver.settings.equilibrate_enable; }
         // "+touch": the same q and b are written once more through the update API before the solve (flushes the cached
         // norms and goes through the scaling code of the update path); the problem solved is the same
         if p.tag.contains("+touch") && solver.is_data_update_allowed() && p.b.iter().all(|v| v.abs() < bound) {
